@@ -123,6 +123,9 @@ let cur = ref empty_tree
 let () =
   let mode = Sys.argv.(1) in
   let width = nat_of_int (if Array.length Sys.argv > 2 then int_of_string Sys.argv.(2) else 64) in
+  (* third argument "fixed": the model of the candidate repair of CsgTree::exchange
+     (coq/C10/CsgFixed.v) instead of the model of the code as it is in /repo *)
+  let fixed = Array.length Sys.argv > 3 && Sys.argv.(3) = "fixed" in
   (try
     while true do
       let line = input_line stdin in
@@ -131,9 +134,10 @@ let () =
         if line = "reset" then (cur := empty_tree; print_string ".\n"; flush stdout)
         else begin
           let o = parse_op (toks_of_line line) in
-          (match run_op width false !cur o with
+          (match (if fixed then run_op_fx width !cur o else run_op width false !cur o) with
            | Ok (t', outs) ->
                List.iter print_out outs;
+               if not fixed then
                (match run_op width true !cur o with
                 | Ok (t2, outs2) when t2 = t' && outs2 = outs -> ()
                 | _ -> print_string "c topo-check-failed\n");
@@ -145,10 +149,10 @@ let () =
         end
       end else if mode = "seq" then begin
         let ops = List.map parse_op (split_ops line) in
-        let outs = run_seq width false ops in
+        let outs = if fixed then run_seq_fx width ops else run_seq width false ops in
         List.iter print_out outs;
         (* same sequence with the extra topological check inside exchange *)
-        let outs_chk = run_seq width true ops in
+        let outs_chk = if fixed then outs else run_seq width true ops in
         if outs_chk <> outs then print_string "c topo-check-failed\n";
         print_string ".\n"
       end else begin
